@@ -66,3 +66,83 @@ func C18_EarnedPrefix() {
 	properPrefix := vf.Or(len(p1) < len(p2) && bytes.HasPrefix(p2, p1), len(p2) < len(p1) && bytes.HasPrefix(p1, p2))
 	vf.AssertKF(vf.Implies(bytes.HasPrefix(key, sub), bytes.Equal(p1, p2)), "earned-scan-exact", "F6", properPrefix)
 }
+
+// name draws a valid service name of the given length (the real ValidateServiceName is assumed)
+func name(tag string, n int) string {
+	s := string(vf.Bytes(tag, n))
+	vf.Assume(types.ValidateServiceName(s) == nil)
+	return s
+}
+
+// C18: key builders are injective and every prefix scan is exact, over service names of lengths
+// 1..2 (incl. names that are prefixes of each other) and 20-byte addresses.
+func C18_Keys() {
+	fam := vf.Choice("family", 10)
+	l1, l2 := 1+vf.Choice("len1", 2), 1+vf.Choice("len2", 2)
+	n1, n2 := name("n1", l1), name("n2", l2)
+	p1, p2 := sdk.AccAddress(vf.Bytes("p1", 20)), sdk.AccAddress(vf.Bytes("p2", 20))
+	o1, o2 := sdk.AccAddress(vf.Bytes("o1", 20)), sdk.AccAddress(vf.Bytes("o2", 20))
+	id1, id2 := vf.Bytes("id1", 40), vf.Bytes("id2", 40)
+	h1, h2 := vf.Int64("h1"), vf.Int64("h2")
+	b1, b2 := vf.Uint64("b1"), vf.Uint64("b2")
+	i1, i2 := vf.Int16("i1"), vf.Int16("i2")
+	r1 := types.GenerateRequestID(id1, b1, h1, i1)
+	r2 := types.GenerateRequestID(id2, b2, h2, i2)
+	sameN, sameP, sameO, sameID := n1 == n2, p1.Equals(p2), o1.Equals(o2), bytes.Equal(id1, id2)
+	switch fam {
+	case 0: // bindings and pricing: key injective, by-service scan exact
+		vf.Assert(vf.Implies(bytes.Equal(types.GetServiceBindingKey(n1, p1), types.GetServiceBindingKey(n2, p2)), vf.And(sameN, sameP)), "binding-key-injective")
+		vf.Assert(vf.Implies(bytes.HasPrefix(types.GetServiceBindingKey(n2, p2), types.GetBindingsSubspace(n1)), sameN), "bindings-of-service-scan-exact")
+		vf.Assert(vf.Implies(bytes.Equal(types.GetPricingKey(n1, p1), types.GetPricingKey(n2, p2)), vf.And(sameN, sameP)), "pricing-key-injective")
+		vf.Assert(vf.Implies(bytes.Equal(types.GetServiceDefinitionKey(n1), types.GetServiceDefinitionKey(n2)), sameN), "definition-key-injective")
+	case 1: // owner index
+		vf.Assert(vf.Implies(bytes.Equal(types.GetOwnerServiceBindingKey(o1, n1, p1), types.GetOwnerServiceBindingKey(o2, n2, p2)), vf.All(sameO, sameN, sameP)), "owner-binding-key-injective")
+		vf.Assert(vf.Implies(bytes.HasPrefix(types.GetOwnerServiceBindingKey(o2, n2, p2), types.GetOwnerBindingsSubspace(o1, n1)), vf.And(sameO, sameN)), "bindings-of-owner-scan-exact")
+		vf.Assert(vf.Implies(bytes.HasPrefix(types.GetOwnerProviderKey(o2, p2), types.GetOwnerProvidersSubspace(o1)), sameO), "providers-of-owner-scan-exact")
+		vf.Assert(vf.Implies(bytes.Equal(types.GetOwnerKey(p1), types.GetOwnerKey(p2)), sameP), "owner-key-injective")
+		vf.Assert(vf.Implies(bytes.Equal(types.GetWithdrawAddrKey(o1), types.GetWithdrawAddrKey(o2)), sameO), "withdraw-key-injective")
+	case 2: // queues
+		vf.Assert(vf.Implies(bytes.HasPrefix(types.GetExpiredRequestBatchKey(id2, h2), types.GetExpiredRequestBatchSubspace(h1)), h1 == h2), "expiry-queue-scan-exact")
+		vf.Assert(vf.Implies(bytes.HasPrefix(types.GetNewRequestBatchKey(id2, h2), types.GetNewRequestBatchSubspace(h1)), h1 == h2), "new-batch-queue-scan-exact")
+		vf.Assert(vf.Implies(bytes.Equal(types.GetExpiredRequestBatchKey(id1, h1), types.GetExpiredRequestBatchKey(id2, h2)), vf.And(sameID, h1 == h2)), "expiry-queue-key-injective")
+		vf.Assert(vf.Implies(bytes.Equal(types.GetNewRequestBatchKey(id1, h1), types.GetNewRequestBatchKey(id2, h2)), vf.And(sameID, h1 == h2)), "new-batch-queue-key-injective")
+		vf.Assert(vf.Implies(bytes.Equal(types.GetExpiredRequestBatchHeightKey(id1), types.GetExpiredRequestBatchHeightKey(id2)), sameID), "expiry-pointer-key-injective")
+		vf.Assert(vf.Implies(bytes.Equal(types.GetRequestContextKey(id1), types.GetRequestContextKey(id2)), sameID), "context-key-injective")
+	case 3: // per-batch scans of requests, responses, pending markers
+		sameBatch := vf.And(sameID, b1 == b2)
+		vf.Assert(vf.Implies(bytes.HasPrefix(types.GetRequestKey(r2), types.GetRequestSubspaceByReqCtx(id1, b1)), sameBatch), "requests-of-batch-scan-exact")
+		vf.Assert(vf.Implies(bytes.HasPrefix(types.GetResponseKey(r2), types.GetResponseSubspaceByReqCtx(id1, b1)), sameBatch), "responses-of-batch-scan-exact")
+		vf.Assert(vf.Implies(bytes.HasPrefix(types.GetActiveRequestKeyByID(r2), types.GetActiveRequestSubspaceByReqCtx(id1, b1)), sameBatch), "pending-of-batch-scan-exact")
+		vf.Assert(vf.Implies(bytes.Equal(types.GetRequestKey(r1), types.GetRequestKey(r2)), vf.All(sameBatch, h1 == h2, i1 == i2)), "request-key-injective")
+	case 4: // pending requests of a binding
+		vf.Assert(vf.Implies(bytes.HasPrefix(types.GetActiveRequestKey(n2, p2, h2, r2), types.GetActiveRequestSubspace(n1, p1)), vf.And(sameN, sameP)), "pending-of-binding-scan-exact")
+		vf.Assert(vf.Implies(bytes.Equal(types.GetActiveRequestKey(n1, p1, h1, r1), types.GetActiveRequestKey(n2, p2, h2, r2)), vf.All(sameN, sameP, h1 == h2, bytes.Equal(r1, r2))), "pending-key-injective")
+	case 5: // volumes
+		c1, c2 := sdk.AccAddress(vf.Bytes("c1", 20)), sdk.AccAddress(vf.Bytes("c2", 20))
+		vf.Assert(vf.Implies(bytes.Equal(types.GetRequestVolumeKey(c1, n1, p1), types.GetRequestVolumeKey(c2, n2, p2)), vf.All(c1.Equals(c2), sameN, sameP)), "volume-key-injective")
+	case 6: // earnings, equal address lengths
+		vf.Assert(vf.Implies(bytes.HasPrefix(types.GetEarnedFeesKey(p2, Denom), types.GetEarnedFeesSubspace(p1)), sameP), "earnings-scan-exact-equal-lengths")
+		vf.Assert(vf.Implies(bytes.HasPrefix(types.GetOwnerEarnedFeesKey(o2, Denom), types.GetOwnerEarnedFeesSubspace(o1)), sameO), "owner-earnings-scan-exact")
+	case 7: // parsing a by-owner index key back into service and provider (GetOwnerServiceBindings)
+		key := types.GetOwnerServiceBindingKey(o1, n1, p1)
+		rest := key[sdk.AddrLen+1:]
+		sep := bytes.Index(rest, types.EmptyByte)
+		vf.Assert(sep == len(n1), "owner-index-key-separator-found")
+		if sep == len(n1) {
+			vf.Assert(vf.And(string(rest[:sep]) == n1, sdk.AccAddress(rest[sep+1:]).Equals(p1)), "owner-index-key-parses-back")
+		}
+	case 8: // ids embedded in request ids
+		c, bc, hh, ix, err := types.SplitRequestID(r1)
+		vf.Assert(vf.All(err == nil, bytes.Equal(c, id1), bc == b1, hh == h1, ix == i1), "request-id-records-context-batch-height-index")
+	case 9: // different record families never share a key (first byte)
+		vf.Assert(vf.All(
+			types.GetServiceBindingKey(n1, p1)[0] != types.GetPricingKey(n1, p1)[0],
+			types.GetRequestKey(r1)[0] != types.GetResponseKey(r1)[0],
+			types.GetRequestKey(r1)[0] != types.GetActiveRequestKeyByID(r1)[0],
+			types.GetExpiredRequestBatchKey(id1, h1)[0] != types.GetNewRequestBatchKey(id1, h1)[0],
+			types.GetExpiredRequestBatchHeightKey(id1)[0] != types.GetNewRequestBatchHeightKey(id1)[0],
+			types.GetEarnedFeesKey(p1, Denom)[0] != types.GetOwnerEarnedFeesKey(p1, Denom)[0],
+			types.GetOwnerKey(p1)[0] != types.GetOwnerProviderKey(p1, p2)[0],
+			types.GetRequestContextKey(id1)[0] != types.GetExpiredRequestBatchKey(id1, h1)[0]), "families-have-distinct-prefix-bytes")
+	}
+}
